@@ -47,7 +47,10 @@ def observe(doc):
             ident = False
         ents = []
         for e in c.entry_list:
-            if isinstance(e, CT.SequenceContainer):
+            if not hasattr(e, "name"):
+                ents.append(["?", repr(e)[:20]])          # an entry that is neither a parameter nor a container (e.g. None)
+                ident = False
+            elif isinstance(e, CT.SequenceContainer):
                 ents.append(["c", e.name])
                 if d.containers.get(e.name) is not e:
                     ident = False
